@@ -257,6 +257,7 @@ func newEngine(ld *loaded, j *Job) *Engine {
 	}
 	eng.registerIntrinsics()
 	eng.registerConcIntrinsics()
+	eng.registerFmtIntrinsics()
 	if j.FSModel {
 		eng.registerFSIntrinsics()
 		eng.registerVerifyIntrinsics()
